@@ -240,6 +240,7 @@ def exhaustive(tier):
                         yield {"kind": "list", "item": "int", "init": init, "ops": [{"op": "setslice", "s": (a, b, step), "items": list(range(50, 50 + k)), "ik": "list"}]}
     yield from exhaustive_lookups()
     yield from exhaustive_equivalent_keys(tier)
+    yield from exhaustive_nested_values()
 
 
 def exhaustive_equivalent_keys(tier):
@@ -773,7 +774,76 @@ def _run_schemalist(case, R):
     R.nontrivial = R.nontrivial or any(o["op"] == "setslice" for o in case["ops"])
 
 
+def exhaustive_nested_values():
+    """Typed dicts / lists whose VALUES are containers themselves (a dict of dicts, a dict of lists, a list of lists... as far as
+    the field types go): the look-up-or-create idioms, in lock-step with built-in containers."""
+    for outer in ("dict-of-dict", "dict-of-list", "dict-of-typed-list"):
+        for idiom in ("setdefault-then-edit", "setdefault-twice", "get-then-edit", "getitem-then-edit", "setdefault-present", "pop-then-edit", "update-then-edit", "ior-then-edit"):
+            yield {"kind": "nested-values", "outer": outer, "idiom": idiom}
+
+
+def _run_nested_values(case, R):
+    cc = sandbox._state["cc"]
+    outer, idiom = case["outer"], case["idiom"]
+    R.label("nested-values", "nested-values:" + idiom)
+    R.nontrivial = True
+    inner_is_dict = outer == "dict-of-dict"
+    vf = {"dict-of-dict": lambda: cc.DictField(cc.StringField(), cc.IntField()), "dict-of-list": lambda: cc.ListField(),
+          "dict-of-typed-list": lambda: cc.ListField(cc.IntField())}[outer]()
+    schema = cc.Schema()
+    schema.groups = cc.DictField(cc.StringField(), vf)
+    cfg = schema()
+    cfg.groups = {"old": ({"a": 1} if inner_is_dict else [1])}
+    d = cfg.groups
+    m = {"old": ({"a": 1} if inner_is_dict else [1])}
+    empty = (lambda: {}) if inner_is_dict else (lambda: [])
+
+    def edit(x, n):
+        if inner_is_dict:
+            x["k%d" % n] = n
+        else:
+            x.append(n)
+    try:
+        if idiom == "setdefault-then-edit":
+            edit(d.setdefault("new", empty()), 1)
+            edit(m.setdefault("new", empty()), 1)
+        elif idiom == "setdefault-twice":
+            edit(d.setdefault("new", empty()), 1)
+            edit(d.setdefault("new", empty()), 2)
+            edit(m.setdefault("new", empty()), 1)
+            edit(m.setdefault("new", empty()), 2)
+        elif idiom == "setdefault-present":
+            edit(d.setdefault("old", empty()), 1)
+            edit(m.setdefault("old", empty()), 1)
+        elif idiom == "get-then-edit":
+            edit(d.get("old"), 1)
+            edit(m.get("old"), 1)
+        elif idiom == "getitem-then-edit":
+            edit(d["old"], 1)
+            edit(m["old"], 1)
+        elif idiom == "pop-then-edit":
+            edit(d.pop("old"), 1)
+            edit(m.pop("old"), 1)
+        elif idiom == "update-then-edit":
+            d.update({"new": empty()})
+            m.update({"new": empty()})
+            edit(d["new"], 1)
+            edit(m["new"], 1)
+        else:
+            d |= {"new": empty()}
+            m |= {"new": empty()}
+            edit(d["new"], 1)
+            edit(m["new"], 1)
+    except Exception as exc:
+        R.fail("crash", "nested-values:" + idiom, "%s on a %s raised %r" % (idiom, outer, exc))
+        return
+    plain = {k: (dict(v) if inner_is_dict else list(v)) for k, v in cfg.groups.items()}
+    R.check(plain == m, "contents", "DictProxy.nested-values:" + idiom, lambda: "%s on a %s: proxy %r, built-in %r" % (idiom, outer, plain, m))
+
+
 def run_case(case, R):
+    if case["kind"] == "nested-values":
+        return _run_nested_values(case, R)
     if case["kind"] == "list":
         _run_list(case, R)
     elif case["kind"] == "dict":
